@@ -188,8 +188,26 @@ def _same_attrs(a, b, _open):
     return sorted(da) == sorted(db) and all(same(da[k], db[k], _open) for k in da)
 
 
+class VersionedSerde(S.PickleSerde):
+    """a serializer of the application's own, built on PickleSerde: every stored payload - bytes included - carries a
+    one-byte schema version in front (so nothing is stored verbatim)"""
+
+    def serialize(self, key, value):
+        payload, flags = super().serialize(key, value)
+        if isinstance(payload, str):
+            payload = payload.encode("ascii")
+        return b"\x01" + payload, flags
+
+    def deserialize(self, key, value, flags):
+        if value[:1] != b"\x01":
+            raise ValueError("payload without the schema version: %r" % value[:20])
+        return super().deserialize(key, value[1:], flags)
+
+
 def make_serde(cfg):
     t = cfg[0]
+    if t == "versioned":
+        return VersionedSerde(cfg[1]) if cfg[1] is not None else VersionedSerde()
     if t == "pickle":
         return S.PickleSerde(cfg[1]) if cfg[1] is not None else S.PickleSerde()
     if t == "legacy-pm":
@@ -422,7 +440,7 @@ def value_strategy():
 def config_strategy():
     pick = st.tuples(st.just("pickle"), st.one_of(st.integers(0, 5), st.none()))
     comp = st.tuples(st.just("compressed"), st.sampled_from(sorted(CODECS)), st.sampled_from([0, 1, 10, 400]),
-                     st.tuples(st.just("pickle"), st.integers(0, 5)))
+                     st.tuples(st.sampled_from(["pickle", "pickle", "versioned"]), st.integers(0, 5)))
     return st.one_of(pick, comp, comp, st.just(("legacy-pm",)), st.just(("default-compressed",)),
                      st.tuples(st.just("legacy-pm-version"), st.integers(0, 5)))
 
@@ -458,6 +476,8 @@ def grid_cases(tier, seed):
                ("back-pointer", [("int", 7)]), ("back-pointer", [("str", "y" * 600)]), ("shared", ("list", [("int", 1), ("int", 2)])),
                ("shared", ("sub", "MyList", ("list", [("int", 1)]), "n")), ("shared", ("bytes", b"z" * 450))]
     configs += [("module-compressed",), ("module-pickle",)]
+    # CompressedSerde around a serializer of the application's own
+    configs += [("versioned", 2)] + [("compressed", codec, ml, ("versioned", p)) for codec in ("zlib", "identity") for ml in (0, 1, 10, 400) for p in (0, 5)]
     for c in configs:
         for v in values:
             yield (c, v)
